@@ -21,6 +21,8 @@ PROP = {
             "quick": {"gen": [(12000, 60)], "enum": [(2, 4, 4), (3, 3, 4, "z")]},
             "thorough": {"gen": [(150000, 80)], "enum": [(2, 4, 5), (3, 3, 5, "z"), (1, 2, 5), (3, 64, 4, "z"), (3, 5, 5)]},
         }],
+        # SlotSequencer.Reset with packets still parked, then reuse (outside the modelled workflow; own oracle)
+        "direct": [{"component": "slots", "timeout": 600}],
         "rule": "scripts = NewByteBuffer + NewSlotSequencer(maxSlots, maxBytes) followed by the documented workflow pairs "
                 "park = Write/Commit/Save(n)/Push(seq)/Discard-on-rejection and take = Pop(seq)/SavedSlot/Discard, in four styles "
                 "(batches that drain to empty out of order; a pinned packet so that the sequencer never drains; free mix; pressure on "
